@@ -285,9 +285,33 @@ fn main() {
             let text = std::fs::read_to_string(&args[2]).unwrap();
             let r = p_world::violated(&text, Cfg::w(80));
             println!("C02-ONE {:?}", r);
+            println!("compile summary of the original: {}", util::clip(&format!("{:?}", p_world::compile_summary(&text)), 300));
         }
         Some("replay") => std::process::exit(props::replay(&args[2])),
         Some("triage") => props::triage(&args[2], workload::Tier::parse(args.get(3).map(|s| s.as_str()).unwrap_or("thorough"))),
+        Some("ladder") => {
+            // measurements along one pure ladder (debugging aid): tyv ladder <family> [width]
+            let f: usize = args[2].parse().unwrap();
+            let w: usize = args.get(3).map(|s| s.parse().unwrap()).unwrap_or(80);
+            let h = std::thread::Builder::new().stack_size(256 << 20).spawn(move || {
+                for d in [1usize, 2, 4, 8, 16, 32, 64, 128, 256] {
+                    let t = gen::nest_pure(f, d);
+                    match p_perf::measure(&t, Cfg::w(w)) {
+                        Some(m) => println!("depth {:>4} len {:>6} nodes {:>6} conversions {:>7} alloc {:>10} cpu_us {:>8}", d, t.len(), m.nodes, m.total(), m.alloc, m.cpu_ns / 1000),
+                        None => println!("depth {:>4} not formattable", d),
+                    }
+                }
+            });
+            let _ = h.unwrap().join();
+        }
+        Some("nest") => {
+            // print the pure ladder families at a given depth (debugging aid)
+            let d: usize = args.get(2).map(|s| s.parse().unwrap()).unwrap_or(3);
+            for f in 0..gen::NEST_FAMILIES_ALL {
+                let t = gen::nest_pure(f, d);
+                println!("{:>2} parses={} {}", f, tree::parse_ok(&t).is_some(), t);
+            }
+        }
         Some("gen") => {
             let n: u64 = args.get(3).map(|s| s.parse().unwrap()).unwrap_or(5);
             for p in gen::all_gen_pools() {
